@@ -44,6 +44,14 @@ def hub_stage(ck, prop, bgraph, routers=True):
     ck.ev.cov["hub_worlds"] = len(cases)
 
 
+def wrap_stage(ck, checks, prop):
+    """Objects that live through 2^8 (and, thorough tier, 2^16) calls with a depression node masked, then unmasked."""
+    q = ck.tier == "quick"
+    cases = list(cf.wrap_cases(ck.seed + 500, prop, widths=(8,) if q else (8, 16), deltas=(-1, 0, 1) if q else (-2, -1, 0, 1, 2)))
+    ck.traces(cases, checks, tag=prop.lower() + "wrap", nontrivial=cf.nontrivial_world, timeout_ms=120000)
+    ck.ev.cov["long_histories"] = len(cases)
+
+
 def plan_C01(ck):
     q = ck.tier == "quick"
     basin_models(ck, "L2 mst resolver: every terminal state satisfies FlowContract!C01 (terminals, strict descent, reaches a base level), the receivers stay a forest, the tree is a minimal spanning forest, termination")
@@ -53,6 +61,9 @@ def plan_C01(ck):
     if q and ck.violations:
         return
     hub_stage(ck, "C01", bgraph=False)
+    if q and ck.violations:
+        return
+    wrap_stage(ck, ["C01", "C09"], "C01")
 
 
 def plan_C02(ck):
@@ -64,6 +75,9 @@ def plan_C02(ck):
     if q and ck.violations:
         return
     hub_stage(ck, "C02", bgraph=False)
+    if q and ck.violations:
+        return
+    wrap_stage(ck, ["C02", "C09"], "C02")
 
 
 def router_models(ck):
@@ -131,6 +145,10 @@ def plan_C09(ck):
              note="two runs with independent queue tie-breaks give the same surface when the heap order is total")
     ck.model("PFloodTwice-elevation-only-order", "MCPFloodTwice.tla", "MCPFloodTwice_ties.cfg", workers=8, expect="violation",
              note="negative control: with an elevation-only heap order TLC finds two runs that differ (history dependence)")
+    wrap_stage(ck, ["C09"], "C09")
+    # graph snapshots are flow graphs too: what accumulate / basins return on them is a function of the inputs
+    # of the update that filled them (observed across several updates, and after the parent's mask was replaced)
+    ck.traces(cf.snapshot_cases(ck.seed + 190, 40 if q else 800, 5, "C09snap"), ["C09"], tag="c09snap", nontrivial=cf.nontrivial_world)
     ck.traces(cf.history_cases(ck.seed + 9, 150 if q else 4000, 5 if q else 7, "C09"), ["C09"], tag="c09",
               nontrivial=cf.nontrivial_world)
 
